@@ -732,3 +732,39 @@ pub fn items_src(items: &[Item]) -> String {
     }
     out
 }
+
+/// every type position of an item (fields, payloads, targets, const types), mutably
+pub fn for_types_mut(it: &mut Item, f: &mut dyn FnMut(&mut Ty)) {
+    match &mut it.kind {
+        Kind::Struct { shape: Shape::Named(fs), .. } => fs.iter_mut().for_each(|x| f(&mut x.ty)),
+        Kind::Struct { shape: Shape::Newtype(t), .. } => f(t),
+        Kind::Enum { variants, .. } => {
+            for v in variants.iter_mut() {
+                match &mut v.payload {
+                    Payload::Newtype(t) => f(t),
+                    Payload::Struct { fields, .. } => fields.iter_mut().for_each(|x| f(&mut x.ty)),
+                    _ => {}
+                }
+            }
+        }
+        Kind::Alias { ty } | Kind::Const { ty, .. } => f(ty),
+        _ => {}
+    }
+}
+
+impl Ty {
+    /// post-order mutable traversal
+    pub fn walk_mut(&mut self, f: &mut dyn FnMut(&mut Ty)) {
+        match self {
+            Ty::User { args, .. } => args.iter_mut().for_each(|a| a.walk_mut(f)),
+            Ty::Vec(t) | Ty::Array(t, _) | Ty::Slice(t) | Ty::Opt(t) | Ty::Wrap(_, t) | Ty::Ref(t) | Ty::Qual(_, t) => t.walk_mut(f),
+            Ty::Map(k, v) => {
+                k.walk_mut(f);
+                v.walk_mut(f)
+            }
+            Ty::Tuple(ts) => ts.iter_mut().for_each(|a| a.walk_mut(f)),
+            _ => {}
+        }
+        f(self);
+    }
+}
